@@ -33,7 +33,21 @@ namespace ip {
 	basic_resolver<Protocol>::basic_resolver(io_context& ios)
 		: m_ios(&ios)
 		, m_timer(ios)
+		, m_alive(std::make_shared<int>(0))
 	{}
+
+	// (re)arm the timer for the entry at the front of the queue
+	template<typename Protocol>
+	void basic_resolver<Protocol>::wait_for_front()
+	{
+		m_timer.expires_at(m_queue.front().completion_time);
+		std::weak_ptr<int> alive = m_alive;
+		m_timer.async_wait(aux::make_malloc([this, alive](boost::system::error_code const& ec)
+		{
+			if (alive.expired()) return;
+			on_lookup(ec);
+		}));
+	}
 
 	template<typename Protocol>
 	basic_resolver<Protocol>::~basic_resolver()
@@ -77,8 +91,7 @@ namespace ip {
 				, hostname, service);
 			result_t res{t, ec, std::move(ips), std::move(handler) };
 			m_queue.insert(m_queue.begin(), std::move(res));
-			m_timer.expires_at(m_queue.front().completion_time);
-			m_timer.async_wait(aux::make_malloc(std::bind(&basic_resolver::on_lookup, this, _1)));
+			wait_for_front();
 			return;
 		}
 		ec.clear();
@@ -103,8 +116,7 @@ namespace ip {
 		result_t res{ completion_time, ec, std::move(ips), std::move(handler)};
 		m_queue.emplace_back(std::move(res));
 
-		m_timer.expires_at(m_queue.front().completion_time);
-		m_timer.async_wait(aux::make_malloc(std::bind(&basic_resolver::on_lookup, this, _1)));
+		wait_for_front();
 	}
 
 	template<typename Protocol>
@@ -123,8 +135,7 @@ namespace ip {
 		// any members after the handler: arm the timer for the next entry first.
 		if (!m_queue.empty())
 		{
-			m_timer.expires_at(m_queue.front().completion_time);
-			m_timer.async_wait(aux::make_malloc(std::bind(&basic_resolver::on_lookup, this, _1)));
+			wait_for_front();
 		}
 		v.handler(v.err, std::move(v.ips));
 	}
